@@ -283,6 +283,17 @@ impl C01 {
             h.out.count("aborted_calls_rolled_back");
         }
         let post = c.snap(false);
+        {
+            // the client-side helpers of packages/cw20 report the same supply and balances
+            let via_s = c.via_helper(|t, q| t.meta(q)).map(|i| i.total_supply.u128());
+            let a = h.rng.clone().pick_cloned(&pool().actors);
+            let via_b = c.via_helper(|t, q| t.balance(q, a.clone())).map(|b| b.u128());
+            h.out.oracle_checks += 1;
+            if via_s != Some(post.supply) || via_b != post.bal.get(&a).copied() {
+                h.violate("C01/query/package-helper-differs-from-queries", format!("Cw20Contract::meta.total_supply {via_s:?} / balance({a}) {via_b:?}; queries say {} / {:?}", post.supply, post.bal.get(&a)));
+                return false;
+            }
+        }
         let x = op_amount(op);
         let amt_class = if x == 0 {
             0
@@ -413,7 +424,7 @@ impl Monitor for C01 {
         for i in 0..n {
             if i == migrate_at {
                 // upgrade of a token deployed by an older release: supply, balances and their equality survive it
-                let v = *h.rng.pick(&["0.13.4", "0.9.1", "0.13.0", "0.2.3", "1.1.2", "2.0.0"]);
+                let v = *h.rng.pick(&["0.13.4", "0.9.1", "0.13.0", "0.2.3", "1.1.2", "2.0.0", "0.7.0", "0.10.3", "0.1.0", "0.14.0", "0.16.0"]);
                 if v.starts_with("0.") {
                     let keys: Vec<Vec<u8>> = c.w.store.data.keys().filter(|k| k.windows(17).any(|w| w == b"allowance_spender")).cloned().collect();
                     for k in keys {
